@@ -641,7 +641,11 @@ func (s *c18Search) search() {
 		// closures and let do not change what `//` and names mean (only where the model gives something)
 		if n.m.escape == "" {
 			for _, t := range probes {
-				for _, wr := range []struct{ tag, pre, post string }{{"lambda", `(\z `, `)(0)`}, {"let", `let z = 0; `, ``}, {"lambda2", `(\z \w `, `)(0)(0)`}} {
+				for _, wr := range []struct{ tag, pre, post string }{{"lambda", `(\z `, `)(0)`}, {"let", `let z = 0; `, ``}, {"lambda2", `(\z \w `, `)(0)(0)`},
+					// the probe as the default of an absent pattern component (defaults are evaluated in a scope of their own)
+					{"array-default", "let [_, ?z: ", "] = [0]; z"}, {"tuple-default", "let (a?: z: ", ") = (); z"},
+					{"param-default", `(\[_, ?z: `, `] z)([0])`},
+					{"cond-arm", "cond 0 {1: 0, _: ", "}"}, {"arrow", "0 -> \\z ", ""}} {
 					if wr.tag == "lambda2" && !w.Thorough {
 						continue
 					}
